@@ -279,13 +279,12 @@ func TestVerifC05_sign448(t *testing.T) {
 		"equal ref/eddsa; the reference signature is accepted by every verification route; distinct = distinct (variant, seed, message, context)")
 	seeds := verifmc.Seeds(57, r.Seed())
 	extra := c05ExtraSeeds(r.Pick(24, 256), 57)
-	fl := int64(1)
 	if !r.Thorough() && r.Config() != "default" {
 		// quick tier, configurations other than default: a declared subset
-		fl = 4
 		seeds, extra = seeds[2:4], extra[:8]
 		r.NotExhaustive("quick tier, non-default configuration: 2 of the structured seeds, 8 extra seeds")
 	}
+	var wantCases int64
 	for _, v := range []*eddsa.Variant{eddsa.Ed448, eddsa.Ed448ph} {
 		signers, entries, ctxs := c05Signers448(v), c05Entries448(v), c05Ctxs()
 		errs := c05kit.SignAll(r, verifmc.ParallelFor, "sign448", v, signers, entries, nil, seeds, c05Msgs(), ctxs, true)
@@ -293,11 +292,12 @@ func TestVerifC05_sign448(t *testing.T) {
 		if len(errs) > 0 {
 			t.Fatalf("harness-internal: %v", errs)
 		}
+		wantCases += int64(len(seeds)*len(c05Msgs())*len(ctxs) + len(extra))
 	}
+	// floor on the enumerated (variant, seed, message, context) triples: a property of the alphabet, not of the library's answers
+	r.RequireCounter("sign-cases", wantCases)
 	r.Set("seeds", len(seeds))
 	r.Set("extra_seeds", len(extra))
-	r.RequireCounter("signature-bytes-equal", 600/fl)
-	r.RequireCounter("honest-accepted", 600/fl)
 }
 
 func TestVerifC05_verify448(t *testing.T) {
